@@ -62,6 +62,9 @@ def corruptions(base, rng, tier):
             d = copy.deepcopy(base)
             d[sec][key] = {"x": 1} if not isinstance(base[sec][key], dict) else 5
             out.append((f"{sec}.{key} wrong type", d))
+    d = copy.deepcopy(base); d["simulation"]["num_months"] = 0; out.append(("simulation.num_months zero", d))
+    d = copy.deepcopy(base); d["simulation"]["start_month"] = "JAN"; out.append(("simulation.start_month not a month number", d))
+    d = copy.deepcopy(base); d["simulation"]["timestep"] = "DAILY"; out.append(("simulation.timestep unknown", d))
     d = copy.deepcopy(base); d["soil"]["conductivity"] = -3.0; out.append(("soil.conductivity negative", d))
     d = copy.deepcopy(base); d["fluid"]["fluid_name"] = "MERCURY"; out.append(("fluid unknown enum", d))
     d = copy.deepcopy(base); d["pipe"]["arrangement"] = "TRIPLEUTUBE"; out.append(("pipe unknown arrangement", d))
@@ -93,8 +96,8 @@ def run(chk):
     os.makedirs(work, exist_ok=True)
     jobs = []      # (label, instance, flags, expect_kind)
 
-    def add(label, inst, flags):
-        jobs.append({"label": label, "inst": inst, "flags": flags})
+    def add(label, inst, flags, no_design=False):
+        jobs.append({"label": label, "inst": inst, "flags": flags, "no_design": no_design})
     add("valid", base, "run")
     add("valid", base, "validate")
     add("valid", base, "nooutdir")
@@ -107,11 +110,18 @@ def run(chk):
     rc["simulation"]["timestep"] = recase("hybrid", rng)
     add("valid re-cased", rc, "validate")
     add("valid re-cased", rc, "run" if not quick else "validate")
+    # schema-valid inputs for which no design exists: the run must end non-zero and write nothing
+    nd = copy.deepcopy(base)
+    nd["loads"]["ground_loads"] = [x * 400.0 for x in nd["loads"]["ground_loads"]]      # far beyond the capacity of the land
+    add("valid, loads too large for the land", nd, "run", no_design=True)
+    add("valid, loads too large for the land", nd, "validate")
+    nd2 = copy.deepcopy(base)
+    nd2["loads"]["ground_loads"] = [x * 0.001 for x in nd2["loads"]["ground_loads"]]    # one borehole at minimum height is already too much
+    add("valid, loads too small for the smallest field", nd2, "run", no_design=True)
     cors = corruptions(base, rng, chk.tier)
     for label, inst in cors:
         add(label, inst, "run")
-        if rng.random() < 0.5 or not quick:
-            add(label, inst, "validate")
+        add(label, inst, "validate")
         # the same corruption with re-cased names must get the same verdict
         if rng.random() < 0.3:
             i2 = copy.deepcopy(inst)
@@ -162,7 +172,9 @@ def run(chk):
             chk.violation("cli", pub, {"exit": code, "outputs_written": written}, "exit status zero only when the output files were written")
         if valid and j["flags"] == "validate" and code != 0:
             chk.violation("cli", pub, {"exit": code, "stderr": err}, "--validate-only on a valid file exits zero")
-        if valid and j["flags"] == "run" and (code != 0 or not written):
+        if j["no_design"] and (code == 0 or written):
+            chk.violation("cli", pub, {"exit": code, "outputs_written": written}, "no design produced (the search fails on this valid input): exit status non-zero and no output files")
+        if valid and j["flags"] == "run" and not j["no_design"] and (code != 0 or not written):
             chk.violation("cli", pub, {"exit": code, "outputs_written": written, "stderr": err}, "a valid input produces the output files and exit status zero")
         # ---- the model's prediction
         if v is not None:
